@@ -83,8 +83,13 @@ def oracle_read(case, results, dfile):
         k = o[0]
         exp = None
         ex = None
+        if k == "flush" and closed:
+            # io.BytesIO raises ValueError, BinaryZlibFile.flush() (= IOBase.flush) returns None: flush is not among
+            # the operations of the property; not judged (the model says None)
+            expand.append(None)
+            continue
         if closed:
-            exp = ["none"] if k == "close" else ["e", 1]
+            exp = ["none"] if k == "close" else (["t", True] if o == ["q", "closed"] else ["e", 1])
             if k == "readline":
                 ex = 1
         elif k == "read":
@@ -120,6 +125,10 @@ def oracle_read(case, results, dfile):
             exp = ["none"]
         elif k == "write":
             exp = ["e", 101]
+        elif k == "q":
+            exp = ["t", {"closed": False, "readable": True, "writable": False, "seekable": True}[o[1]]]
+        elif k == "flush":
+            exp = ["none"]
         expand.append(ex)
         if not in_scope:
             # keep the expansion list aligned, stop judging
@@ -137,7 +146,15 @@ def oracle_read(case, results, dfile):
 REQ = """From Coq Require Import ZArith List Bool.
 Require Import JV.Base.PyPrelude JV.Model.ZlibFile.
 Import ListNotations. Open Scope Z_scope."""
-DEFS = """Definition idc (c : unit) (d : bytes) : unit * bytes := (c, d).
+DEFS = """Fixpoint rl_run (K F : nat) (limits : list Z) (st : rstate) : list (list Z) :=
+  match limits with
+  | [] => []
+  | l :: t => match do_readline K F l st with
+              | Some (VBytes b, st') => b :: rl_run K F t st'
+              | _ => [[-1]]
+              end
+  end.
+Definition idc (c : unit) (d : bytes) : unit * bytes := (c, d).
 Definition idf (c : unit) : bytes := [].
 Definition show_w (x : list res * wstate unit) :=
   (map show_res (fst x), wpos unit (snd x), mode_code (wmode unit (snd x)), len (wfile unit (snd x)))."""
@@ -183,6 +200,12 @@ def model_ops(case, expand):
             groups.append(1)
         elif k == "write":
             out.append("OWrite")
+            groups.append(1)
+        elif k == "q":
+            out.append("OQuery Q" + o[1].capitalize())
+            groups.append(1)
+        elif k == "flush":
+            out.append("OFlush")
             groups.append(1)
     return common.coq_list(out), groups
 
@@ -244,6 +267,8 @@ def compare_read(case, r, mtrace, groups, dfile, drift=None, scope_end=None):
                 mr = ["n", a]
             elif tag == 2:
                 mr = ["none"]
+            elif tag == 5:
+                mr = ["t", bool(a)]
             else:
                 mr = ["e", a]
         got = impl_r[:2] if impl_r[0] == "e" else impl_r
@@ -327,8 +352,12 @@ def gen_ops(rng, n, text, length):
                 d = -n
             ops.append(["seek", d, 2])
             pos = max(0, min(n, n + d))
-        elif x < 0.96:
+        elif x < 0.94:
             ops.append(["tell"])
+        elif x < 0.955:
+            ops.append(["q", rng.choice(["closed", "readable", "writable", "seekable"])])
+        elif x < 0.96:
+            ops.append(["flush"])
         elif x < 0.975:
             ops.append(["seek", rng.randint(0, 5), rng.choice([3, -1, 7])])
         elif x < 0.985:
@@ -403,9 +432,12 @@ def gen_write(rng, count):
                 ops.append(["tell"])
             if rng.random() < 0.03:
                 ops.append(rng.choice([["read"], ["seek"]]))
+            if rng.random() < 0.04:
+                ops.append(rng.choice([["q", "closed"], ["q", "readable"], ["q", "writable"], ["q", "seekable"], ["flush"]]))
         if rng.random() < 0.15:
             ops.append(["close"])
-            ops.append(rng.choice([["tell"], ["write", 0] if chunks else ["tell"], ["close"], ["read"]]))
+            ops.append(rng.choice([["tell"], ["write", 0] if chunks else ["tell"], ["close"], ["read"], ["q", "closed"],
+                                   ["q", "writable"], ["flush"]]))
         if len(ops) > 400:
             ops = ops[:400]
         cases.append({"kind": "write", "fmt": rng.choice(["zlib", "gzip"]), "level": 1 + i % 9,
@@ -427,8 +459,12 @@ def judge_write(case, r):
     for i, o in enumerate(case["ops"]):
         got = res[i][0]
         got = got[:2] if got[0] == "e" else got
-        if closed:
-            exp = ["none"] if o[0] == "close" else ["e", 1]
+        if o[0] == "flush":
+            exp = ["none"]   # IOBase.flush: nothing to do, and (not judged as a stream property) no error when closed
+        elif closed:
+            exp = ["none"] if o[0] == "close" else (["t", True] if o == ["q", "closed"] else ["e", 1])
+        elif o[0] == "q":
+            exp = ["t", {"closed": False, "readable": False, "writable": True, "seekable": False}[o[1]]]
         elif o[0] in ("write", "writemv"):
             exp = ["n", len(chunks[o[1]])]
             written.append(chunks[o[1]])
@@ -457,8 +493,10 @@ def write_expr(case):
     for o in case["ops"]:
         if o[0] in ("write", "writemv"):
             ops.append("WWrite (zeros %d)" % case["chunks"][o[1]])
+        elif o[0] == "q":
+            ops.append("WQuery Q" + o[1].capitalize())
         else:
-            ops.append({"tell": "WTell", "read": "WRead", "seek": "WSeek", "close": "WClose"}[o[0]])
+            ops.append({"tell": "WTell", "read": "WRead", "seek": "WSeek", "close": "WClose", "flush": "WFlush"}[o[0]])
     ops.append("WClose")
     return "show_w (wrun unit idc idf %s (winit unit tt))" % common.coq_list(ops)
 
@@ -471,13 +509,65 @@ def compare_write(case, r, s):
     if len(ents) != len(res):
         return "model produced %d results, implementation %d" % (len(ents), len(res))
     for i, ((tag, a, b), (ir, ist)) in enumerate(zip(ents, res)):
-        mr = ["n", a] if tag == 1 else (["none"] if tag == 2 else ["e", a])
+        mr = ["n", a] if tag == 1 else (["none"] if tag == 2 else (["t", bool(a)] if tag == 5 else ["e", a]))
         got = ir[:2] if ir[0] == "e" else ir
         if got != mr:
             return "write-mode operation %d: implementation %s, model %s" % (i, ir, mr)
     if res[-1][1] != [wpos, wmode]:
         return "final (_pos,_mode) %s in the implementation, %s in the model" % (res[-1][1], [wpos, wmode])
     return None
+
+
+# ------------------------------------------------------------------ readline on the real bytes
+def gen_readlines(rng, count):
+    cases = []
+    for i in range(count):
+        n = rng.choice([0, 1, 30, 120, 300])
+        limits = [rng.choice([-1, -1, -1, 1, 3, 10, 1000]) for _ in range(rng.choice([1, 3, 8, 40]))]
+        cases.append({"kind": "read", "fmt": rng.choice(["zlib", "gzip"]), "level": rng.randint(1, 9),
+                      "payload": {"gen": "text", "n": n, "seed": i}, "bufsize": rng.choice([None, 1, 5, 16]),
+                      "trailer": rng.choice([None, None, {"kind": "bytes", "n": 3}]), "trunc": None, "via": "bytesio",
+                      "ops": [["readline", l] for l in limits], "family": "readlines"})
+    return cases
+
+
+def eval_readlines(ctx, cases, stats):
+    """Model/ZlibFile.do_readline (the IOBase.readline loop over read(1)) on the REAL bytes of the script vs the
+    implementation's readline results and io.BytesIO.readline."""
+    res = run_impl_cases(cases)
+    fails, disagree = [], []
+    exprs, meta = [], []
+    for c, r in zip(cases, res):
+        if "skipped" in r or "harness_error" in r:
+            continue
+        raw, d, dfile, complete = file_payload(c)
+        bad, judged, expand = oracle_read(c, r["results"], dfile)
+        stats["ops_judged"] += judged
+        if bad:
+            fails.append((bad, c, r))
+            continue
+        sc, outs, _ = sh.script_of(raw, c["fmt"], r["bufsize"])
+        lit = [zl(list(o)) for o in outs]
+        if sc["complete"]:
+            script = "Complete %s %s (zeros %d) (map zeros %s)" % (common.coq_list(lit[:-1]), lit[-1], sc["unused"],
+                                                                      zl(sc["extra"]))
+        else:
+            script = "Truncated %s" % common.coq_list(lit)
+        exprs.append("let file := file_of (%s) in rl_run %d (fuel_for file) %s (init_state file)" % (
+            script, len(dfile) + 2, zl([o[1] for o in c["ops"]])))
+        meta.append((c, r, dfile))
+    vals = ctx.coq_eval_lines(REQ, DEFS, exprs, name="c13_readlines", shard=30)
+    for (c, r, dfile), v in zip(meta, vals):
+        lines = [[int(x) for x in re.findall(r"-?\d+", part)] for part in re.findall(r"\[([^\[\]]*)\]", v.replace("%Z", ""))]
+        impl = [x[0] for x in r["results"][1:]]
+        stats["model_evals"] += 1
+        ok = len(lines) == len(impl) and all(
+            i[0] == "b" and i[1] == sh.sha(bytes(l)) and i[2] == len(l) for i, l in zip(impl, lines))
+        if not ok:
+            disagree.append(("readline: implementation %s, model (do_readline) %s" % (impl[:6], lines[:6]), c, r))
+        elif len(dfile) > 1:
+            stats["nontrivial"].add(json.dumps([c["payload"], c["fmt"], c["bufsize"], c["ops"]]))
+    return fails, disagree
 
 
 # ------------------------------------------------------------------ evaluation of a batch
@@ -605,6 +695,10 @@ def run(ctx):
     rnd_cases = gen_random(ctx.rng, 700 if quick else 6000)
     cases += ex_cases + rnd_cases
     oracle_fail, disagree, script_fail = evaluate(ctx, cases, "c13_read", stats)
+    rl_cases = gen_readlines(ctx.rng, 40 if quick else 300)
+    rl_fail, rl_dis = eval_readlines(ctx, rl_cases, stats)
+    oracle_fail += rl_fail
+    disagree += rl_dis
     # writes
     wcases = gen_write(ctx.rng, 160 if quick else 1200)
     wres = run_impl_cases(wcases)
@@ -661,7 +755,8 @@ def run(ctx):
         sizes[c["payload"]["n"] if c["payload"]["n"] in SIZES else "other"] = sizes.get(
             c["payload"]["n"] if c["payload"]["n"] in SIZES else "other", 0) + 1
     ctx.finish({
-        "evaluations": len(cases) + len(wcases),
+        "evaluations": len(cases) + len(wcases) + len(rl_cases),
+        "readline_cases_on_real_bytes": len(rl_cases),
         "distinct_nontrivial": len(stats["nontrivial"]),
         "rule": "read histories: all sequences of length <=3 over a 9-operation alphabet on many-block files "
                 "(_BUFFER_SIZE patched to 2..5 in the child) plus random histories of length <=40 on payloads of "
